@@ -100,6 +100,32 @@ def gen_case(rng):
         S.add_binding(red, sc0, spelled, argl, 7)
     r = rng.random()
     scope = '/'.join(rng.choice([[], ['a'], ['a', 'b']]))
+    if rng.random() < 0.06:
+      # a spelling that several registered configurables end with is *known*: it is never skipped (not even when the
+      # skip list names it) - it is ambiguous, through this path as through every other
+      leaves = {}
+      for rg in regs:
+        parts = rg['_selector'].split('.')
+        for kk in range(1, len(parts)):
+          leaves.setdefault('.'.join(parts[-kk:]), set()).add(rg['_selector'])
+      amb = sorted(l for l, rs in leaves.items() if len(rs) > 1)
+      if amb:
+        sp = rng.choice(amb)
+        if sk == 'names' and rng.random() < 0.7:
+          skip['v'] = skip['v'] + [sp]
+        form = rng.choice(['bind', 'block', 'ref'])
+        if form == 'bind':
+          S.add_binding(b, scope, sp, 'x', 1)
+        elif form == 'block':
+          S.add_block(b, scope, sp, [('x', 1)])
+        else:
+          cons = regs[0]
+          ccls = [x for x, k in G.param_classes(cons).items() if k == 'valid']
+          if not ccls:
+            continue
+          S.add_binding(b, scope, cons['_selector'], ccls[0], {'l': [{'rawref': [[], sp, False]}]})
+        fails = 'KeyError'
+        break
     if r < 0.38:   # known target
       reg = rng.choice(regs)
       cls = [x for x, k in G.param_classes(reg).items() if k == 'valid']
@@ -210,7 +236,10 @@ def oracle(case, impl):
   if case['_expect_fail']:
     if 'ok' in res:
       return f'an unknown name not covered by skip_unknown={case["_skip"]} was accepted'
-    if res['err'] not in ('ValueError', 'ImportError'):
+    if case['_expect_fail'] == 'KeyError':
+      if res['err'] != 'KeyError':
+        return f'an ambiguous spelling of registered configurables surfaced as {res["err"]} (skip_unknown={case["_skip"]})'
+    elif res['err'] not in ('ValueError', 'ImportError'):
       return f'unlisted unknown name surfaced as {res["err"]}'
   elif 'err' in res:
     return f'parse with skip_unknown={case["_skip"]} failed: {res}'
